@@ -6,6 +6,8 @@ use rscel::CelValue;
 use serde_json::json;
 
 use crate::corpus::{CORPUS, NAMES_FUNCS, NAMES_MACROS, NAMES_TYPES};
+use crate::gen::{self, Gen, GenCfg, Parens, Ws};
+use crate::hookmon;
 use crate::mon::{self, binds_json, canon, panic_sig, Ctx, Out, Rep};
 use crate::rng::Rng;
 use crate::vals;
@@ -243,6 +245,98 @@ pub fn run(ctx: &mut Ctx) {
         rep.sample(|| json!({"stage":"mutate","source":src,"outcome":out.show()}));
     });
 
+    // ---- grammar-derived sources from the typed generator, tame and hostile bindings ---------
+    let ngen = ctx.n(120_000, 1_500_000);
+    ctx.stage("grammar", ngen, true, |_idx, rng, rep| {
+        let nv = rng.below(5);
+        let vars = gen::random_vars(rng, nv);
+        let mut cfg = GenCfg::basic(vars.clone());
+        cfg.ill_typed_pct = 8;
+        cfg.unbound = vec!["nope".into(), "undefined_thing".into()];
+        cfg.tame = rng.chance(2, 3);
+        let depth = 1 + rng.below(5) as u32;
+        let ty = gen::random_ty(rng, 1);
+        let e = Gen::new(rng, cfg).expr(&ty, depth);
+        let ws = *rng.pick(&[Ws::Pretty, Ws::Tight, Ws::Random]);
+        let src = gen::render(&e, ws, Parens::Minimal, Some(rng)).text;
+        let binds = if rng.chance(2, 3) {
+            gen::random_binds(rng, &vars, true)
+        } else {
+            // hostile: any value of any type for every variable
+            vars.iter().map(|v| (v.name.clone(), rng.pick(&full).clone())).collect()
+        };
+        let (out, tr) = hookmon::with_trace(true, || mon::run1(&src, &binds));
+        check_total(rep, "grammar", &src, &binds, &out);
+        rep.add("hook_frames", tr.frames);
+        rep.add("hook_steps", tr.steps);
+        if let Some(p) = tr.problems.first() {
+            // bounded progress: a frame never executes more steps than it has instructions
+            rep.viol(
+                &format!("progress|{}", p.split(' ').take(3).collect::<Vec<_>>().join(" ")),
+                &format!("VM trace monitor: {}", p),
+                json!({"source": src, "bindings": binds_json(&binds)}),
+            );
+        }
+        rep.distinct(&src, e.size() >= 3);
+        rep.count(&format!("grammar_outcome/{}", out.class().split(':').next().unwrap()));
+        rep.sample(|| json!({"stage":"grammar","source":src,"bindings":binds_json(&binds),"outcome":out.show()}));
+    });
+
+    // ---- lists handed to sort / min / max / in: incomparable and NaN-laden ------------------
+    let nsort = ctx.n(20_000, 200_000);
+    ctx.stage("sort-hostile", nsort, true, |_idx, rng, rep| {
+        let n = rng.below(40);
+        let l: Vec<CelValue> = (0..n).map(|_| rng.pick(&full).clone()).collect();
+        let binds = vec![("l".to_string(), CelValue::from_list(l))];
+        for src in ["l.sort()", "sort(l)", "l.map(x, x).sort()", "l.filter(x, x in l)"] {
+            total(rep, "sort-hostile", src, &binds);
+        }
+    });
+
+    // ---- depth ladders: each case alone, on the main thread and on a default 2 MiB thread ----
+    let mut depths: Vec<usize> = Vec::new();
+    let maxpow = if ctx.quick() { 12 } else { 17 };
+    for p in 0..=maxpow {
+        depths.push(1usize << p);
+    }
+    depths.extend([31, 33, 34, 50, 60, 70, 100, 200, 300, 400, 600, 1000, 3000]);
+    depths.sort();
+    depths.dedup();
+    let kinds = LADDERS.len();
+    ctx.stage_each("ladder", (kinds * depths.len()) as u64, false, |idx, _rng, rep| {
+        let kind = idx as usize % kinds;
+        let depth = depths[idx as usize / kinds];
+        let (name, f) = LADDERS[kind];
+        // the compiler is quadratic in the length of member / argument / element sequences
+        // (it re-collects the bytecode vector per element); that is slow, not non-returning,
+        // so these kinds stop at 8192
+        if QUADRATIC.contains(&name) && depth > 8192 {
+            rep.count("ladder_skipped_quadratic");
+            return;
+        }
+        let src = f(depth);
+        rep.mark(name);
+        rep.count(&format!("ladder_kind/{}", name));
+        // main thread (8 MiB)
+        let out = mon::run1(&src, &[]);
+        check_total_ladder(rep, name, depth, "main", &src, &out);
+        // default-size thread
+        let src2 = src.clone();
+        let h = std::thread::Builder::new()
+            .spawn(move || mon::run1(&src2, &[]))
+            .expect("spawn");
+        match h.join() {
+            Ok(out2) => check_total_ladder(rep, name, depth, "thread-2MiB", &src, &out2),
+            Err(_) => rep.viol(
+                &format!("ladder|{}|thread-panic", name),
+                "worker thread panicked outside catch_unwind",
+                json!({"ladder": name, "depth": depth}),
+            ),
+        }
+        rep.distinct(&format!("{}:{}", name, depth), depth >= 2);
+        rep.sample(|| json!({"stage":"ladder","kind":name,"depth":depth,"source":mon::clip(&src, 120),"outcome":out.show()}));
+    });
+
     // ---- random UTF-8 over a CEL-heavy alphabet ---------------------------------------------
     let nrand = ctx.n(150_000, 1_500_000);
     ctx.stage("random-utf8", nrand, true, |_idx, rng, rep| {
@@ -253,6 +347,63 @@ pub fn run(ctx: &mut Ctx) {
         rep.sample(|| json!({"stage":"random-utf8","source":src,"outcome":out.show()}));
     });
 }
+
+fn check_total_ladder(rep: &mut Rep, name: &str, depth: usize, thread: &str, src: &str, out: &Out) {
+    rep.eval();
+    rep.count(&format!("ladder_outcome/{}", out.class().split(':').next().unwrap()));
+    if let Out::Panic(m, l) = out {
+        rep.viol(
+            &format!("ladder|{}|panic|{}", name, panic_sig(m, l)),
+            &format!("ladder {} depth {} on {}: panicked: {} at {}", name, depth, thread, m, l),
+            json!({"ladder": name, "depth": depth, "thread": thread, "source": mon::clip(src, 300)}),
+        );
+    }
+}
+
+type LadderFn = fn(usize) -> String;
+
+const QUADRATIC: &[&str] = &[
+    "member-chain", "index-chain", "method-chain", "wide-list", "wide-map", "wide-call",
+    "fstring-wide", "match-wide",
+];
+
+fn rep_s(s: &str, n: usize) -> String {
+    s.repeat(n)
+}
+
+pub const LADDERS: &[(&str, LadderFn)] = &[
+    ("parens", |n| format!("{}1{}", rep_s("(", n), rep_s(")", n))),
+    ("neg-run", |n| format!("{}1", rep_s("-", n))),
+    ("not-run", |n| format!("{}true", rep_s("!", n))),
+    ("neg-paren", |n| format!("{}1{}", rep_s("-(", n), rep_s(")", n))),
+    ("list", |n| format!("{}{}", rep_s("[", n), rep_s("]", n))),
+    ("map", |n| format!("{}1{}", rep_s("{'a':", n), rep_s("}", n))),
+    ("index-chain", |n| format!("[[1]]{}", rep_s("[0]", n))),
+    ("index-nest", |n| format!("{}0{}", rep_s("[0][", n), rep_s("]", n))),
+    ("member-chain", |n| format!("{{'a': 1}}{}", rep_s(".a", n))),
+    ("call-nest", |n| format!("{}1{}", rep_s("int(", n), rep_s(")", n))),
+    ("method-chain", |n| format!("'x'{}", rep_s(".trim()", n))),
+    ("ternary-right", |n| format!("{}0", rep_s("true ? 1 : ", n))),
+    ("ternary-cond", |n| format!("{}true{}", rep_s("(", n), rep_s(" ? true : false)", n))),
+    ("match-nest", |n| format!("{}0{}", rep_s("match 1 { case _: ", n), rep_s(" }", n))),
+    ("match-scrutinee", |n| format!("{}1{}", rep_s("match ", n), rep_s(" { case _: 1 }", n))),
+    ("macro-nest", |n| format!("{}x{}", rep_s("[1].map(x, ", n), rep_s(")", n))),
+    ("has-nest", |n| format!("{}x{}", rep_s("has(", n), rep_s(")", n))),
+    ("coalesce-nest", |n| format!("{}1{}", rep_s("coalesce(", n), rep_s(")", n))),
+    ("add-chain", |n| format!("1{}", rep_s(" + 1", n))),
+    ("add-chain-var", |n| format!("x{}", rep_s(" + 1", n))),
+    ("or-chain", |n| format!("false{}", rep_s(" || false", n))),
+    ("and-chain-var", |n| format!("x{}", rep_s(" && true", n))),
+    ("rel-chain", |n| format!("1{}", rep_s(" < 2", n))),
+    ("wide-list", |n| format!("[{}1]", rep_s("1, ", n))),
+    ("wide-map", |n| format!("{{{}'k': 1}}", rep_s("'k': 1, ", n))),
+    ("wide-call", |n| format!("min({}1)", rep_s("1, ", n))),
+    ("fstring-wide", |n| format!("f'{}'", rep_s("{1}", n))),
+    ("fstring-brace-nest", |n| format!("f'{}1{}'", rep_s("{", n), rep_s("}", n))),
+    ("match-wide", |n| format!("match 1 {{ {} case _: 0 }}", rep_s("case 2: 1,", n))),
+    ("string-long", |n| format!("'{}'", rep_s("a", n))),
+    ("ident-long", |n| rep_s("a", n)),
+];
 
 pub fn corpus_binds() -> Vec<(String, CelValue)> {
     vec![
